@@ -45,8 +45,9 @@
   literal tokens decode, and the error a failing one yields. The slices
   `simple_literal` takes of the token text first (`&s[1..s.len() - 1]`,
   `&s[2..]`) ARE in the model and proved not to panic (`literal_slices_ok`, from
-  the shape of the token text the lexer model guarantees); the slices inside
-  `unescape_f_string_part` are part of the oracle (partial).
+  the shape of the token text the lexer model guarantees); so are the slices of `unescape_f_string_part` (`fstring_part_slices_ok`, for every
+  text). What stays in the oracle is the decoding proper (std `parse`,
+  `rustc-literal-escaper`) and the location arithmetic of its errors.
 -/
 import RotoV.Lemmas.ParseTop
 
@@ -74,6 +75,15 @@ theorem literal_slices_ok (P : Preds) (src : List Char) (L L' : Lexer) (hr : Rea
 /-- non-vacuity: a string token and the slice the parser takes of it -/
 example : litSlices .string ['"', 'a', '€', '"'] = .ok () ∧ litSlices .string ['"'] = .panic ∧
     litSlices .hex ['€'] = .panic := by decide
+
+/-- `unescape_f_string_part(s, …)` never slices `s` off a character boundary:
+the ranges `piece_start..i` it cuts at every doubled brace and the final
+`piece_start..` are on boundaries for EVERY text (the model of its scan over
+`char_indices()`, with the `\\u{…}` skip). -/
+theorem fstring_part_slices_ok (t : List Char) : fPieces t = .ok () := fPieces_ok t
+
+/-- non-vacuity: the ranges the scan cuts out of `a{{€}}b` (bytes 0..1 and 3..6, then 8..) -/
+example : uScan .normal 0 0 ['a', '{', '{', '€', '}', '}', 'b'] [] = ([(0, 1), (3, 6)], 8) := by decide
 
 /-- obligation on the GENERATED look-ahead windows of `atom`: tried in order,
 `peek_many::<N>` never computes `N - self.peeked.len()` with `len > N` -/
